@@ -14,6 +14,11 @@
 (*         Ry[k+1] = min(rows, r_svd + kick)   (a wide QR when rows are few)*)
 (*   after the sweep: stop if `last` was set, else set `last` when all      *)
 (*   supercores changed by less than eps (environment's choice here)        *)
+(*                                                                         *)
+(* The direction of a sweep is not part of any property: the mirror image   *)
+(* (OrthL, a left-to-right QR pass, then k = d-2..0 with the *right*        *)
+(* factor enriched: Ry[k+1] = min(cols, r_svd + kick)) is a behaviour of    *)
+(* this specification too, sweep by sweep (the code always sweeps "lr").    *)
 (***************************************************************************)
 EXTENDS Integers, Sequences, FiniteSets, TLC
 
@@ -27,9 +32,22 @@ Orth(M, r0) ==
                      ELSE Fix([r EXCEPT ![k + 1] = Min2(M[k + 1] * r[k + 2], r[k + 1])], k - 1)
     IN Fix(r0, d - 1)
 
+\* left-to-right orthogonalisation pass (the mirror image)
+OrthL(M, r0) ==
+    LET d == Len(M)
+        RECURSIVE Fix(_, _)
+        Fix(r, k) == IF k > d - 2 THEN r                     \* k: 0-based core index 0..d-2
+                     ELSE Fix([r EXCEPT ![k + 2] = Min2(r[k + 1] * M[k + 1], r[k + 2])], k + 1)
+    IN Fix(r0, 0)
+OrthD(dir, M, r0) == IF dir = "lr" THEN Orth(M, r0) ELSE OrthL(M, r0)
+
 Rows(M, r, k) == r[k + 1] * M[k + 1]
 Cols(M, r, k) == M[k + 2] * r[k + 3]
 StepOut(rows, rsvd, kick, finalsweep) == IF finalsweep THEN rsvd ELSE Min2(rows, rsvd + kick)
+\* the enriched factor is the left one (rows) in an "lr" sweep, the right one (cols) in an "rl" sweep
+StepOutD(dir, rows, cols, rsvd, kick, finalsweep) == StepOut(IF dir = "lr" THEN rows ELSE cols, rsvd, kick, finalsweep)
+\* position visited at the p-th step (0-based) of a sweep over d cores
+KAt(dir, d, p) == IF dir = "lr" THEN p ELSE d - 2 - p
 
 (***************************************************************************)
 (* Accuracy ledger of the sweeps (property-derived inequalities, checked   *)
